@@ -770,6 +770,8 @@ def run_witnesses(ctx):
     cases, meta = [], []
     for e in ctx.open_findings():
         w = e.get("witness") or {}
+        if w.get("kind") == "unused":
+            continue                              # replayed by run_unused_witnesses
         for k, pw in enumerate(w.get("progs", [])):
             cases.append({"kind": "exec", "i": -1 - len(cases), "prog": pw["prog"], "ns": w["ns"]})
             meta.append((e["id"], pw))
@@ -832,9 +834,45 @@ def run_fragment_witnesses(ctx):
             ctx.disagreement("fragment witness %s does not show the stated outcome" % wid, rec, im, mo.get("trace"))
 
 
+def run_unused_witnesses(ctx):
+    """known findings about the unused report (witness kind 'unused'): the implementation reports the import unused,
+    the model agrees, and the model's PySem trace has a read bound to that very import"""
+    cases, meta = [], []
+    for e in ctx.open_findings():
+        w = e.get("witness") or {}
+        if w.get("kind") != "unused":
+            continue
+        for pw in w.get("progs", []):
+            cases.append({"kind": "free", "i": -200 - len(cases), "prog": pw["prog"], "ns": w["ns"]})
+            meta.append((e["id"], pw))
+    if not cases:
+        return
+    prepared = [prepare(c) for c in cases]
+    wcases = [{"kind": "free", "src": p[0], "ns": c["ns"]} for c, p in zip(cases, prepared)]
+    impl = cm.run_impl("c05", "impl_case", wcases, timeout_case=20, jobs=1)
+    model = cm.coq_eval_json(REQ, [model_expr(c, p[1], p[2]) for c, p in zip(cases, prepared)])
+    for (fid, pw), c, p, im, mo0 in zip(meta, cases, prepared, impl, model):
+        assert p[0] == pw["src"], (p[0], pw["src"])
+        mo = decode(mo0, p[2])
+        rec = {"i": c["i"], "kind": "free", "src": p[0], "ns": c["ns"], "prog": c["prog"]}
+        ctx.bump("witness_replayed")
+        if im["scan"]["unused"] != mo["scan"]["unused"]:
+            ctx.disagreement("known-finding witness %s: scan_for_import_issues.unused" % fid, rec, im["scan"]["unused"], mo["scan"]["unused"])
+            continue
+        reported = any(ln == pw["line"] and full == pw["import"] for ln, full, _ in im["scan"]["unused"])
+        used = any(ln == pw["read_line"] and n == pw["name"] and r[0] == "imp" and r[1] == pw["line"] for ln, n, r in mo["trace"])
+        if reported and used:
+            ctx.known_hit(fid, "import reported unused although a read resolves to it; witness %r" % pw["src"])
+        elif not used:
+            ctx.disagreement("known-finding witness %s: the model's trace has no read bound to the import" % fid, rec, im, mo["trace"])
+        else:
+            ctx.bump("witness_no_longer_reproduces:" + fid)
+
+
 def run(ctx):
     cm.check_anchors(ctx, ANCHORS)
     run_witnesses(ctx)
+    run_unused_witnesses(ctx)
     run_fragment_witnesses(ctx)
     n = (600 if ctx.quick else 12000) * ctx.scale
     ctx.coverage["rule"] = (
